@@ -190,6 +190,10 @@ def check_wf(ex, st, zobj, info, hb, version, timecnt, typecnt):
         ex.prove(st, and_(le(-tz.TLIM, unix[i]), le(unix[i], tz.TLIM)),
                  "Load => every transition time within +-2^59 (premise under which the query harnesses prove absence of overflow)")
     if info is None: return N, T, unix           # a table not built from an image (ResetToBuiltinUTC)
+    # inside these jobs a footer is never accepted (ParsePosixSpec is stubbed to reject): a loaded zone is not extended, and says so
+    ex.prove(st, eq(L(160, I8), 0), "Load => extended_ is initialised (false when no footer rule was expanded)")
+    # leap-second records are not supported: the governing header of an accepted file declares none
+    ex.prove(st, eq(be(info["B"][hb + 28: hb + 32]), 0), "Load => the header that governs the decoded block has leapcnt == 0 (leap-second files are rejected)")
     # decoding agrees with the bytes (reference reading of tzfile(5))
     B = info["B"]; tlen = 8 if version >= 2 else 4
     base = hb + HDR
@@ -362,6 +366,29 @@ def footer_image(footer):
         return h + struct.pack(">q" if v2 else ">l", 646790400) + b"\0" + struct.pack(">lBB", 0, 0, 0) + b"UTC\0"
     return block(False) + block(True) + b"\n" + footer + b"\n"
 
+def valgrind_check(img, t=None, cs=None):
+    """the same replay program, built without sanitizers, under valgrind memcheck: uses of uninitialised zone state"""
+    V = common.VERIF; R = build.REPO + "/src/"
+    if "vg" not in _exe:
+        out = os.path.join(build.workdir(), "c12_replay_plain")
+        rest = [R + f for f in ("time_zone_if.cc", "time_zone_fixed.cc", "time_zone_posix.cc", "zone_info_source.cc", "time_zone_libc.cc",
+                                "civil_time_detail.cc", "time_zone_impl.cc", "time_zone_lookup.cc", "time_zone_format.cc")]
+        cmd = ["g++", "-std=c++17", "-O0", "-g", "-fno-access-control", "-I" + build.REPO + "/include", "-I" + build.REPO + "/src", "-I" + V,
+               os.path.join(V, "replay", "c12_replay.cc")] + rest + ["-o", out, "-lpthread"]
+        r = subprocess.run(cmd, capture_output=True, text=True)
+        if r.returncode != 0: raise RuntimeError("replay build failed: " + r.stderr[-1500:])
+        _exe["vg"] = out
+    args = []
+    if t is not None: args.append("t=%d" % t)
+    try: p = subprocess.run(["valgrind", "-q", "--error-exitcode=9", "--track-origins=no", _exe["vg"]] + args, input=img, capture_output=True, timeout=120)
+    except (subprocess.TimeoutExpired, FileNotFoundError): return None
+    if p.returncode == 9:
+        err = p.stderr.decode("latin1")
+        line = next((l for l in err.splitlines() if "uninitialised" in l), "use of an uninitialised value")
+        where = next((l for l in err.splitlines() if "TimeZoneInfo::" in l), "")
+        return "valgrind: %s %s (on a %d-byte image that Load accepts)" % (line.split("== ")[-1].strip(), where.split("== ")[-1].strip()[:120], len(img))
+    return None
+
 _exe = {}
 def _replay_exe():
     if "p" in _exe: return _exe["p"]
@@ -390,6 +417,8 @@ def run(tier):
     # after the range check (fix e7109df) Load itself establishes the +-2^59 premise, so the continuation into the queries is
     # only kept for the smallest 64-bit shape of the thorough tier
     jobs = [("Load:v%d,timecnt=%d,typecnt=%d" % s, job_load, {"version": s[0], "timecnt": s[1], "typecnt": s[2], "queries": False}) for s in shapes]
+    # room for one leap-second record behind the data block (files with leap records must be rejected, whichever header declares them)
+    jobs.append(("Load:v2,timecnt=0,typecnt=1,room for a leap record", job_load, {"version": 2, "timecnt": 0, "typecnt": 1, "extra": 14, "queries": False}))
     if tier == "thorough":
         jobs.append(("Load+queries:v2,timecnt=1,typecnt=1", job_load, {"version": 2, "timecnt": 1, "typecnt": 1, "queries": True}))
     lean = [(1, 1, 2)] if tier == "quick" else [(1, 1, 2), (1, 2, 2), (2, 1, 2)]
@@ -447,8 +476,9 @@ def run(tier):
                 total = HDR + 5 * kw["timecnt"] + 6 * kw["typecnt"] + 1 + 2
                 img = bytes((big_fixed_byte(i, kw["timecnt"], kw["typecnt"]) if big_fixed_byte(i, kw["timecnt"], kw["typecnt"]) is not None else m.get("b%d" % i, 1)) & 255 for i in range(total))
             w = native_load_check(img, t=m.get("q_t"), cs=m.get("q_cs"))
+            if not w and "uninitialised" in fobj["desc"]: w = valgrind_check(img, t=m.get("q_t"))
             if w:
-                kind = "hang" if "does not return" in w else ("ub" if "undefined" in w else ("wf" if "inconsistent table" in w else "crash"))
+                kind = "hang" if "does not return" in w else ("uninit" if "valgrind" in w else "ub" if "undefined" in w else ("wf" if "inconsistent table" in w else "crash"))
                 rep.violation("%s:%s" % (kind, fobj["desc"][:60]), w + "  [%s: %s]" % (r["name"], fobj["desc"]), {"image": list(img), "t": m.get("q_t"), "cs": m.get("q_cs")})
             else:
                 rep.spurious.append({"job": r["name"], "obligation": fobj["desc"], "image_len": len(img)})
